@@ -345,8 +345,44 @@ Definition sdelay_c : codec delay := mkcodec (fun o v => one (sdelay_tr o v)) sd
 Definition ns_time := str "urn:xmpp:time".
 Definition time_name := mkname ns_time (str "time").
 
+(* t.Format("Z07:00") for a zone offset in seconds, as package time does it:
+   "Z" for offset 0, else the sign of the offset in minutes (truncated toward
+   zero), two digits of hours, a colon, two digits of minutes *)
+Definition two_digits (n : N) : bytes := if (n <? 10)%N then "0"%byte :: dec n else dec n.
+
+Definition format_tzo (off : Z) : bytes :=
+  if Z.eqb off 0 then str "Z"
+  else
+    let zone := Z.quot off 60 in
+    let a := Z.to_N (Z.abs zone) in
+    (if (zone <? 0)%Z then "-"%byte else "+"%byte) :: two_digits (a / 60) ++ ":"%byte :: two_digits (a mod 60).
+
+(* the inverse on the texts XEP-0082 allows: Z, or sign, two digits, colon, two
+   digits (hours below 24, minutes below 60); the offset in seconds *)
+Definition digit_val (c : byte) : option N :=
+  let n := bN c in if (48 <=? n)%N && (n <=? 57)%N then Some (n - 48)%N else None.
+
+Definition parse_tzo (s : bytes) : option Z :=
+  match s with
+  | [z] => if byte_eqb z "Z"%byte then Some 0%Z else None
+  | [sg; h1; h2; c; m1; m2] =>
+      match digit_val h1, digit_val h2, digit_val m1, digit_val m2 with
+      | Some a, Some b, Some x, Some y =>
+          let h := (a * 10 + b)%N in let m := (x * 10 + y)%N in
+          if byte_eqb c ":"%byte && (h <? 24)%N && (m <? 60)%N then
+            let v := Z.of_N ((h * 60 + m) * 60) in
+            if byte_eqb sg "+"%byte then Some v
+            else if byte_eqb sg "-"%byte then Some (- v)%Z else None
+          else None
+      | _, _, _, _ => None
+      end
+  | _ => None
+  end.
+
+(* the tzo text is computed by the model (not taken from the observed output):
+   a regression of the formatter is a disagreement of the correspondence *)
 Definition xtime_tr (o : oracles) (t : tm) : tree :=
-  Elem time_name [] [leaf (str "tzo") (o_tfmt o L_tzo t); leaf (str "utc") (o_tfmt o L_utc_nano t)].
+  Elem time_name [] [leaf (str "tzo") (format_tzo (t_off t)); leaf (str "utc") (o_tfmt o L_utc_nano t)].
 
 Definition xtime_fields : list (Schema.field (bytes * bytes)) :=
   [ f_str KElem [] (str "tzo") (fun s p => (s, snd p));
